@@ -50,6 +50,18 @@ from .dot import node_to_dot
 from .rdf import RDFMapperCallbackType, node_to_rdf
 
 
+def _index_of(node_list: list, node) -> int:
+    """Return the index of `node` in `node_list`, comparing by identity.
+
+    ``list.index()`` and ``list.remove()`` compare with ``==``, i.e. by node
+    data, and would pick the wrong sibling if two nodes hold equal data.
+    """
+    for i, n in enumerate(node_list):
+        if n is node:
+            return i
+    raise ValueError(f"{node} is not in list")
+
+
 # ------------------------------------------------------------------------------
 # - Node
 # ------------------------------------------------------------------------------
@@ -341,7 +353,9 @@ class Node:
                             n._data = new_data
                 else:
                     # Move this one node to another slot in the map
-                    node_map[self._data_id].remove(self)
+                    del node_map[self._data_id][
+                        _index_of(node_map[self._data_id], self)
+                    ]
                     try:  # are we adding to existing clones again?
                         node_map[new_data_id].append(self)
                     except KeyError:  # now a singleton with a new data_id
@@ -396,14 +410,14 @@ class Node:
         """Predecessor or None, if node is first sibling."""
         if self.is_first_sibling():
             return None
-        idx = self._parent._children.index(self)  # pyright: ignore[reportOptionalMemberAccess]
+        idx = _index_of(self._parent._children, self)
         return self._parent._children[idx - 1]  # pyright: ignore[reportOptionalSubscript]
 
     def next_sibling(self) -> Node | None:
         """Return successor or None, if node is last sibling."""
         if self.is_last_sibling():
             return None
-        idx = self._parent._children.index(self)  # type: ignore
+        idx = _index_of(self._parent._children, self)
         return self._parent._children[idx + 1]  # type: ignore
 
     def last_sibling(self) -> Node:
@@ -457,7 +471,7 @@ class Node:
 
     def get_index(self) -> int:
         """Return index in sibling list."""
-        return self._parent._children.index(self)  # type: ignore
+        return _index_of(self._parent._children, self)
 
     # --------------------------------------------------------------------------
 
@@ -654,7 +668,7 @@ class Node:
                     f"`before=node` ({before._parent}) "
                     f"must be a child of target node ({self})"
                 )
-            idx = children.index(before)  # raises ValueError
+            idx = _index_of(children, before)  # raises ValueError
             children.insert(idx, node)
         else:
             children.append(node)
@@ -756,7 +770,7 @@ class Node:
         if new_parent._tree is not self._tree:
             raise NotImplementedError("Can only move nodes inside same tree")
 
-        self._parent._children.remove(self)  # type: ignore
+        del self._parent._children[_index_of(self._parent._children, self)]
         if not self._parent._children:  # store None instead of `[]`
             self._parent._children = None
         self._parent = new_parent
@@ -772,7 +786,7 @@ class Node:
             new_parent._children = [self]  # type: ignore
         elif isinstance(before, Node):
             assert before._parent is new_parent, before
-            idx = target_siblings.index(before)  # raise ValueError if not found
+            idx = _index_of(target_siblings, before)  # raise ValueError if not found
             target_siblings.insert(idx, self)
         elif isinstance(before, int):
             target_siblings.insert(before, self)
@@ -802,7 +816,7 @@ class Node:
             self.remove_children()
 
         pc = self._parent._children
-        pc.remove(self)  # type: ignore
+        del pc[_index_of(pc, self)]
         if not pc:  # store None instead of `[]`
             pc = self._parent._children = None
 
